@@ -46,11 +46,16 @@ type genOpts struct {
 	noRawCtl   bool // stay out of the raw-control-character class (defect listed as known)
 	noLeadZero bool // stay out of the leading-zero class (defect listed as known)
 	cli        bool // text travels through a line-oriented file: no \n, \r
+	short      bool // no multi-kilobyte texts
 }
 
 func genText(r *run.Rand, o genOpts) []byte {
 	var b []byte
-	switch k := r.Intn(100); {
+	k := r.Intn(100)
+	if o.short && k >= 92 && k < 96 {
+		k = 4 // a numeric shape instead of a long text
+	}
+	switch {
 	case k < 4:
 		// empty
 	case k < 19:
